@@ -10,7 +10,8 @@ CHECKS = [
              "check_connection / release (also right after a long message, or by the master's application behind the node's back) / "
              "re-join / power loss one call at a time, then look IDs up concurrently in staggered rounds; "
              "plus enumerated families: a relay and its child asking -3..+3 ms apart, repeated identical lookups with relay traffic in "
-             "between, every node sending to every other for ID sets that coincide numerically with address values; judged against the master's public table and "
+             "between, every node sending to every other (two messages before the target reads) for ID sets that coincide numerically with address "
+             "values, master-side releases, 'only one node still accepts children' for every contact address and for a level-4 node; judged against the master's public table and "
              "all queues; with a loss word only no-exception / termination / valid-or-None are claimed.  Schedules are sampled: the "
              "weakest claim of the set",
      "design_ref": "4/C17", "note": SIM_NOTE + "; in concurrent phases an answer of -1 (no answer) is accepted; nodes orphaned by a "
@@ -38,7 +39,8 @@ CHECKS = [
      "text": "every sender class (master, 0o1, other level-1, levels 2..4) x every target level (default, 0..4, -1, 5) x message "
              "length class is enumerated on a fixed populated topology; Hypothesis draws populated topologies of 6..20 nodes with "
              "per-node allow_multicast / multicast_relay / overridden multicast_level / re-addressing from another level and MCU timing "
-             "models, pre-histories of routed writes, relays with full queues and relays on every level 0..4; after quiescence all "
+             "models, pre-histories of routed writes, relays with full queues, relays on every level 0..4 and a member's own write racing the "
+             "multicast; after quiescence all "
              "queues are compared with the reference set of level members, the air log is checked for the level address, single "
              "attempts, absence of ACK packets, relay re-broadcasts and the set of levels a relayed message may reach; schedules are sampled",
      "design_ref": "4/C14", "note": SIM_NOTE + "; a receiver whose 3-level RX FIFO was overrun by an unacknowledged fragment burst is "
@@ -47,7 +49,8 @@ CHECKS = [
     {"property_id": "C13", "level": "fault_enumeration",
      "text": "every (route length 1..8, direction, message type class, fault position) combination is enumerated: no fault, every "
              "attempt of the data frame at hop i lost, every attempt of the NETWORK_ACK relay at hop j lost, the first k attempts of "
-             "the origin's frame lost with a route_timeout sweep, and a second acknowledged message relayed by the waiting sender; "
+             "the origin's frame lost with a route_timeout sweep, and a second acknowledged message relayed by the waiting sender, a child chattering to the waiting sender, "
+             "multicast_level overrides on every node, header objects carrying a stale origin, 24-byte messages; "
              "Hypothesis draws routes over the whole address space, types 0..255, timeouts, MCU timing models, bystanders and faults "
              "beyond it; originators and addressees of type-193 frames, the arrival time of the NETWORK_ACK at the origin's chip and "
              "the duration of write() are taken from the medium's ground-truth log",
@@ -58,7 +61,8 @@ CHECKS = [
              "nodes), every node running its own update() loop as a task on its own simulated radio with a drawn MCU timing model, "
              "1..4 sequential messages (lengths 0..144, user types 0..127, write()/send(), fresh or explicit ids), per-node "
              "multicast_level overrides; after each message the network is left to become quiescent, all queues are compared with "
-             "what was sent and every frame a router took from the air must have been forwarded; schedules are sampled "
+             "what was sent and every frame a router took from the air must have been forwarded; routers with allow_multicast off, re-addressed "
+             "nodes, and queues read only at the end with frame ids colliding between origins (enumerated + drawn); schedules are sampled "
              "(seeded timing models), so an interleaving that needs a particular sub-millisecond alignment can be missed",
      "design_ref": "4/C05", "note": SIM_NOTE + "; loss-free medium with first-locked-wins on overlap; one open known finding "
      "(pipelined fragments, DESIGN 5.3) is excluded by signature and counted",
@@ -76,7 +80,7 @@ CHECKS = [
     {"property_id": "C18", "level": "exploration",
      "text": "enumeration of name x show_pa_level x pa_level x way of tuning x container form (buffer+type, list, tuple, list of "
              "bytearrays) x fill relative to the capacity (quick -1..+1, thorough -3..+2) x 1 or 3 advertisements of the same "
-             "container with hops in between; Hypothesis-generated histories of MAC / name / show_pa_level / pa_level / hop_channel / channel= / with-block "
+             "container with hops in between (show_pa_level also given as truthy non-bool values); Hypothesis-generated histories of MAC / name / show_pa_level / pa_level / hop_channel / channel= / with-block "
              "re-entry and advertise() calls whose chunk lists are constructed around the capacity boundary; the W_TX_PAYLOAD bytes "
              "and RF_CH are read from the simulated chip and parsed by an independent bit-serial BLE link-layer reference "
              "(de-whitening with the channel implied by RF_CH, PDU header, length, AdvA, AD structures verbatim, CRC-24); "
@@ -89,7 +93,8 @@ CHECKS = [
              "combinations, packets from the independent BLE encoder, every single and (thorough: every; quick: 1/8 of the) double "
              "bit flip of valid packets, CRC-valid packets with adversarial AD areas, random 32-byte payloads, and an "
              "atheris/libFuzzer campaign with the oracle in the target; the reference parser decides which payloads are consistent "
-             "packets, decoded values are compared with what was advertised, available() must never raise, read() order is checked",
+             "packets, decoded values are compared with what was advertised, available() must never raise, read() order is checked, and "
+             "a second FakeBLE object on a radio of its own must never report an element",
      "design_ref": "4/C19", "note": "trusted base: vlib/ref/ble.py and the simulator; temperature float tolerance 0.01 (encoder truncates to 1/100)",
      "technique": "property-based testing: round-trip + differential against independent BLE encoder/parser, exhaustive bit-flip enumeration, coverage-guided fuzzing (atheris)"},
     {"property_id": "C15", "level": "exploration",
@@ -120,14 +125,16 @@ CHECKS = [
      "text": "Hypothesis-generated header field values / buffers compared with an independently written struct layout, and "
              "one real write() for every message length 0..144 (exhaustive over lengths, several contents/types/ids per length) "
              "to a direct neighbour and through one router, and after every history of <= 3 (quick) / 5 (thorough) sender "
-             "configuration calls (fragmentation on/off, max_message_length) at ten boundary lengths, the on-air frames captured from the simulated medium and compared "
+             "configuration calls (fragmentation on/off, max_message_length) at ten boundary lengths, after earlier messages of the same sender, with the first k attempts of one fragment lost, and "
+             "through multicast() with int and one-character str types, the on-air frames captured from the simulated medium and compared "
              "field by field with the reference fragmenter and fed to a reference TMRh20-style reassembler",
      "design_ref": "4/C11", "note": SIM_NOTE + "; vlib/ref/frag.py is the specification of the TMRh20 fragment format",
      "technique": "property-based testing: round-trip + differential against reference fragmenter/reassembler on captured on-air frames"},
     {"property_id": "C09", "level": "exploration",
      "text": "every ordered pair of classes x one (quick) / two (thorough) configuration calls of the first x one call of the second "
              "from per-class alphabets (incl. print_pipes()/print_details(), which re-read the shadow registers), each object "
-             "re-entered afterwards, enumerated; Hypothesis-generated interleavings of 3..12 with-blocks of 2..3 objects (RF24, FakeBLE, RF24Network, RF24Mesh in any "
+             "re-entered afterwards, and every sequence of 3 (thorough: 4) pipe-0 / TX-address / role calls by an RF24 object, "
+             "enumerated; calls that FakeBLE rejects with NotImplementedError as FakeBLE ops; Hypothesis-generated interleavings of 3..12 with-blocks of 2..3 objects (RF24, FakeBLE, RF24Network, RF24Mesh in any "
              "mix) sharing one simulated radio, each block running drawn configuration calls; for every re-entry the chip's "
              "complete configuration register file is compared with the snapshot taken at the end of that object's previous "
              "block, and PWR_UP/CE are checked after every __exit__; exhaustive only for the stated alphabets",
@@ -135,7 +142,8 @@ CHECKS = [
      "technique": "property-based testing: enumerated class-pair/call combinations + Hypothesis-generated multi-object with-block interleavings, metamorphic snapshot-equality oracle"},
     {"property_id": "C10", "level": "exploration",
      "text": "every word of 3 (quick) / 4 (thorough) traffic and mutator ops over a 17-symbol alphabet in every payload mode, "
-             "followed by an accessor tail (exhaustive), and Hypothesis op lists mixing traffic (peer sends to any pipe, write/CE/send to listening, absent or ACK-payload peers, "
+             "followed by an accessor tail (exhaustive), interrupt_config() of all six classes in every flag combination (positional / "
+             "keyword), a second radio with its own driver object polled before every accessor, and Hypothesis op lists mixing traffic (peer sends to any pipe, write/CE/send to listening, absent or ACK-payload peers, "
              "load_ack, role toggles) with every accessor in all its argument forms, in dynamic / static per-pipe / mixed payload "
              "modes; each accessor is compared with the simulated chip's FIFOs, latched flags, STATUS byte of the last "
              "transaction, retransmission count in the air log and IRQ pin; exhaustive only for the stated words",
@@ -150,8 +158,9 @@ CHECKS = [
     {"property_id": "C01", "level": "exploration",
      "text": "Hypothesis-generated link configurations x payload lists, executed on two simulated radios through the public API; "
              "the received sequence, pipe, any(), the W_TX_PAYLOAD bytes on the SPI bus and the caller's buffers are compared "
-             "with the documented padding/truncation/rejection rule; plus ping-pong exchanges (both ends switch roles) and long "
-             "lists (4..12 payloads) with a receiver task draining the FIFO concurrently; sampled inputs, no exhaustiveness claimed",
+             "with the documented padding/truncation/rejection rule; plus ping-pong exchanges (both ends switch roles; the answer read at once or only after the next "
+             "send_only send), write() as a call form, calls during which the peer is deaf, configuration pre-histories and call "
+             "orders, per-pipe payload modes, and long lists (4..12 payloads) with a receiver task draining the FIFO concurrently; sampled inputs, no exhaustiveness claimed",
      "design_ref": "4/C01", "note": SIM_NOTE,
      "technique": "property-based testing (Hypothesis composite generator) with a documented-rule oracle on a simulated link"},
     {"property_id": "C03", "level": "exploration",
@@ -163,7 +172,8 @@ CHECKS = [
      "technique": "model-based property testing: bounded-exhaustive call pairs/triples + Hypothesis call sequences vs register reference model"},
     {"property_id": "C08", "level": "exploration",
      "text": "breadth-first enumeration of every call sequence to depth 4 (quick) / 5-6 (thorough) over a 17-symbol alphabet of "
-             "pipe-0 opens/closes, open_tx_pipe, auto-ack changes and listen toggles for address widths 3..5, Hypothesis "
+             "pipe-0 opens/closes, open_tx_pipe, auto-ack changes, ack = True, a transmission, a with-block re-entry and listen toggles "
+             "for address widths 3..5, Hypothesis "
              "sequences to length 40 beyond; registers after every call are compared with the reference model of the user's "
              "pipe 0, CE/role-change discipline is read from the chip trace, and each sequence ends with a behavioural probe "
              "(packet to the user's address / send() to a listening peer)",
@@ -173,15 +183,18 @@ CHECKS = [
      "text": "every D/P/A outcome word over the (1+arc)(1+force_retry) attempts is enumerated for arc<=1 (quick) / arc<=2 "
              "(thorough), force_retry<=1, x {auto-ack, ACK payload loaded/empty} x send_only x follow-up call, plus "
              "no-ack modes and a deaf peer; Hypothesis histories (arc 0..15, all ard codes, force_retry 0..3, words to 64 "
-             "symbols, 1..6 calls incl. list input) beyond it; each call's result, attempt count, duration and every "
-             "on-air payload are judged against the medium's ground-truth log",
+             "symbols, 1..6 calls incl. list input) beyond it; with read() / listen round trips / with-block re-entry between calls, neutral configuration pre-histories and "
+             "short TX addresses after a pipe-0 history; each call's result, attempt count, duration and every on-air payload are "
+             "judged against the medium's ground-truth log (an ACK the peer sent but the driver's own pipe-0 state made "
+             "inaudible counts as acknowledged)",
      "design_ref": "4/C02", "note": SIM_NOTE,
      "technique": "fault-sequence enumeration + Hypothesis-generated call histories against the simulator's ground-truth air log"},
     {"property_id": "C12", "level": "exploration",
      "text": "model-based: every op word to the stated depth over the op alphabet (enqueue of five frames incl. equal-key variants, a complete fragmented message, dequeue, peek, "
              "capacity changes; exhaustive), Hypothesis op lists to length "
              "40, and histories produced by a Hypothesis rule-based state machine whose rules step the reference queue (state-aware "
-             "preconditions), all run in lock-step against an independent reference queue; absence beyond the explored histories "
+             "preconditions), all run in lock-step against an independent reference queue, with a second queue object reassembling a message of "
+             "its own in the same program; absence beyond the explored histories "
              "is not shown",
      "design_ref": "4/C12", "note": "reference queue vlib/ref/queue.py is the specification; int message types only",
      "technique": "model-based property testing: exhaustive op-word enumeration + Hypothesis op lists + rule-based state machine vs reference model"},
